@@ -19,8 +19,9 @@ REQUIRED = ["Sqfs.C10.coherent_init", "Sqfs.C10.coherent_seek", "Sqfs.C10.cohere
 
 KEY_D2 = "C10:D2:meta-seek-failed-load-keeps-old-tag"
 KEY_D3 = "C10:D3:meta-read-after-failed-seek-underflow"
+KEY_D21 = "C10:D21:data-block-cache-keyed-by-location-only"
 
-HARNESS_SRC = ["h_c10.c", "lib/sqfs/src/meta_reader.c"]
+HARNESS_SRC = ["h_c10.c", "h_c10_data.c"]
 
 
 # ---------------------------------------------------------------------------------------------------------
@@ -158,6 +159,105 @@ def gen_episode(rng, nops):
 
 
 # ---------------------------------------------------------------------------------------------------------
+# toy images for the data reader: a chain of data blocks, some fragment blocks, a fragment table
+
+C24 = 1 << 24
+
+
+def data_block(rng, bs):
+    """-> (on-disk bytes, size word, kind)"""
+    rb = lambda n: bytes(rng.randrange(256) for _ in range(n))
+    k = rng.choice(["raw-full", "raw-full", "raw-short", "id", "id-full", "xor", "expand", "expand-full", "sparse", "unc-fail",
+                    "oversize", "expand-empty"])
+    if k == "raw-full":
+        d = rb(bs); return d, C24 | bs, k
+    if k == "raw-short":
+        d = rb(rng.randint(1, bs)); return d, C24 | len(d), k
+    if k == "id":
+        d = rb(rng.randint(1, max(1, bs - 1))); return b"\0" + d, len(d) + 1, k
+    if k == "id-full":
+        d = rb(bs); return b"\0" + d, bs + 1, k            # on-disk size bs+1 > bs: refused (OVERFLOW)
+    if k == "xor":
+        d = rb(rng.randint(1, max(1, bs - 2))); x = rng.randrange(256)
+        return bytes([1, x]) + bytes(c ^ x for c in d), len(d) + 2, k
+    if k == "expand":
+        n = rng.randint(1, bs); return bytes([3, n & 255, n >> 8, rng.randrange(256)]), 4, k
+    if k == "expand-full":
+        return bytes([3, bs & 255, bs >> 8, rng.randrange(256)]), 4, k
+    if k == "expand-empty":
+        return bytes([3, 0, 0, 9]), 4, k
+    if k == "sparse":
+        return b"", 0, k
+    if k == "unc-fail":
+        d = rb(rng.randint(1, 6)); return bytes([rng.choice([2, 5, 0xee])]) + d, len(d) + 1, k
+    if k == "oversize":
+        d = rb(bs + rng.randint(1, 9)); return d, C24 | len(d), k
+    raise ValueError(k)
+
+
+def gen_data_episode(rng, nops):
+    bs = rng.choice([8, 16, 16, 32, 64, 300])
+    img = bytearray(bytes(rng.randrange(256) for _ in range(rng.randint(0, 20))))
+    chain = []
+    for _ in range(rng.randint(3, 14)):
+        raw, word, kind = data_block(rng, bs)
+        chain.append({"loc": len(img), "word": word, "kind": kind})
+        img += raw
+    frags = []
+    for _ in range(rng.randint(0, 5)):
+        raw, word, kind = data_block(rng, bs)
+        if kind in ("sparse",):
+            continue
+        frags.append((len(img), word))
+        img += raw
+    if frags and rng.random() < 0.3:
+        frags.append((len(img) + rng.randint(0, 50), C24 | rng.randint(1, bs)))       # entry pointing past the data
+    meta_start = len(img)
+    body = b"".join(st.to_bytes(8, "little") + w.to_bytes(4, "little") + b"\0\0\0\0" for st, w in frags)
+    if frags:
+        img += le16(0x8000 | len(body)) + body
+    loc = len(img)
+    img += meta_start.to_bytes(8, "little")
+    used = len(img)
+    ents = ",".join("%d:%d" % e for e in frags) or "-"
+    lines = ["file " + bytes(img).hex()]
+    if rng.random() < 0.2:
+        c = rng.choice(chain)
+        lines.append("bad %d %d" % (c["loc"], 1))
+    nrd = rng.randint(1, 2)
+    for k in range(nrd):
+        lines.append("dr %d new %d %d %d %d %d %s" % (k, bs, meta_start, loc, len(frags), used, ents))
+    damaged = rng.random() < 0.3
+    files = []
+    for _ in range(rng.randint(2, 6)):
+        a = rng.randrange(len(chain)); c = rng.randint(0, min(5, len(chain) - a))
+        words = [b["word"] for b in chain[a:a + c]]
+        start = chain[a]["loc"]
+        tail = rng.choice([0, 0, rng.randint(1, bs - 1)])
+        fidx, foff = 0xFFFFFFFF, 0
+        if tail and frags and rng.random() < 0.85:
+            fidx = rng.choice([rng.randrange(len(frags)), rng.randrange(len(frags)), len(frags), len(frags) + 3])
+            foff = rng.choice([0, 0, rng.randint(0, bs), bs - tail if bs >= tail else 0])
+        fsz = c * bs + tail
+        if rng.random() < 0.15:
+            fsz = max(0, fsz + rng.choice([-1, 1, -bs, bs, 5]))
+        if damaged and words and rng.random() < 0.6:
+            i = rng.randrange(len(words))
+            w = words[i]
+            words[i] = rng.choice([w ^ C24, (w & C24) | max(1, (w & (C24 - 1)) // 2), (w & C24) | min(bs, (w & (C24 - 1)) + 1), 0, C24 | bs])
+        if damaged and rng.random() < 0.2 and a + 1 < len(chain):
+            start = chain[a + 1]["loc"]
+        files.append((fsz, start, fidx, foff, ",".join(map(str, words)) or "-"))
+    for _ in range(nops):
+        k = rng.randrange(nrd)
+        fsz, start, fidx, foff, ws = rng.choice(files)
+        off = rng.choice([0, 0, bs, 2 * bs, rng.randint(0, fsz + 2), rng.randint(0, fsz + 2), max(0, fsz - 1), fsz, bs - 1, bs + 1])
+        size = rng.choice([0, 1, bs, bs - 1, bs + 1, 2 * bs, fsz, fsz + 5, rng.randint(0, fsz + 3), rng.randint(0, 3 * bs), 100000])
+        lines.append("dr %d read %d %d %d %d %s %d %d" % (k, fsz, start, fidx, foff, ws, off, size))
+    return lines, {"img_len": len(img), "kinds": ["data:" + b["kind"] for b in chain], "bs": bs, "damaged": damaged}
+
+
+# ---------------------------------------------------------------------------------------------------------
 
 def strip_io(l):
     return l.split(" #io=")[0]
@@ -200,6 +300,9 @@ def classify(lines, impl, rc, fixm, oldm):
                 first_hist = i
                 break
     if follows_old and (rc == 0 or cut < len(oldm)):
+        if any(l.startswith("dr ") for l in lines):
+            d = first_hist if first_hist is not None else next(i for i in range(len(fixm)) if impl_s[i] != fixm[i])
+            return "D21", d, "%s -> %s" % (lines[d], impl_s[d])
         if first_hist is not None and first_hist < cut:
             return "D2", first_hist, impl_s[first_hist]
         if cut < len(oldm):
@@ -274,6 +377,9 @@ def report(ctx, harness, res, counts):
     if v == "D2":
         ctx.violation(KEY_D2, "sqfs_meta_reader_seek: a failed cache-miss seek leaves the new block's bytes under the old block_offset; "
                       "a later query of the old block is answered from the wrong block (%s)" % res["detail"][:300], replay)
+    elif v == "D21":
+        ctx.violation(KEY_D21, "sqfs_data_reader_read: the cached data block is reused for the same location even when the size word "
+                      "differs (damaged image / inconsistent inodes): %s" % res["detail"][:300], replay)
     elif v == "D3":
         ctx.violation(KEY_D3, "sqfs_meta_reader_read after a failed seek: data_used - offset wraps (%s)" % res["detail"][:300], replay)
     else:
@@ -298,7 +404,8 @@ def corpus_episodes():
 
 
 def build_harness(ctx):
-    return ctx.cc("h_c10", HARNESS_SRC)
+    lib = ctx.build_lib()
+    return ctx.cc("h_c10", HARNESS_SRC, flags=["-DH_C10_WITH_DATA"], libs=[str(lib)] + vlib.CODEC_LIBS)
 
 
 def run(ctx):
@@ -320,6 +427,11 @@ def run(ctx):
         lines, meta = gen_episode(ctx.rng, nops)
         eps.append(("gen/%d" % i, lines))
         metas.append(meta)
+    ndep = 40 if ctx.quick() else 600
+    for i in range(ndep):
+        lines, meta = gen_data_episode(ctx.rng, 60 if ctx.quick() else 100)
+        eps.append(("data/%d" % i, lines))
+        metas.append(meta)
     counts = {}
     results = run_episodes(ctx, harness, eps)
     nlines = nq = nhit = nq_nontrivial = 0
@@ -332,12 +444,12 @@ def run(ctx):
             if " || " in l:
                 nq += 1
                 body = strip_io(l).split(" || ")[0]
-                if re.search(r"reads=.*0:[0-9a-f]{2}", body):
+                if re.search(r"reads=.*0:[0-9a-f]{2}", body) or re.search(r"ret=[1-9]", body):
                     nq_nontrivial += 1
                     distinct.add(vlib.sha(res["lines"][0] + body))
                 if l.endswith("#io=0") and body.startswith("seek=0"):
                     nhit += 1
-            for m in re.finditer(r"(?:st|seek)=(-?\d+)", strip_io(l).split(" || ")[0]):
+            for m in re.finditer(r"(?:st|seek|ret)=(-?\d+)", re.sub(r"ret=[1-9]\d*", "ret=N", strip_io(l).split(" || ")[0])):
                 st_hist[m.group(1)] = st_hist.get(m.group(1), 0) + 1
     for m in metas:
         for k in m["kinds"]:
